@@ -426,7 +426,66 @@ SYNC = dict(
                  "GetMissingNodeKeys is judged on a fresh trie object after exactly one full traversal, as a set"],
 )
 
-FAMILIES = {"C01": MPT, "C02": MPT, "C14": MPT, "C06": SC, "C07": SC, "C08": C08, "C03": ROUNDS, "C04": ROUNDS, "C05": ROUNDS, "C17": SYNC}
+# ----------------------------------------------------------------------------- C16: concurrent use of one trie (search mode + race detector)
+
+def run_c16(prop, tier, seed):
+    t0 = time.time()
+    d = vlib.scratch(prop + "_" + tier)
+    racebin = vlib.build_vexec(race=True)
+    res = Result()
+    s, t = vlib.design_check(d, "MPT_MC", "MPT_MC.cfg")
+    res.states += s
+    res.transitions += t
+    prefix = os.path.join(d, "trace")
+    n, nm = (250, 120) if tier == "quick" else (8000, 3000)
+    summ = vlib.vexec(racebin, ["conc", "-seed", seed, "-n", n, "-nmissing", nm, "-out", prefix, "-shards", 12], timeout=3000,
+                      env={"GORACE": "exitcode=0"})
+    if "DATA RACE" in summ.get("_stderr", ""):
+        res.extra["race_report"] = summ["_stderr"][-6000:]
+    shards = sorted(glob.glob(prefix + ".*.ndjson"))
+    vr = vlib.validate_traces(d, "MPTConc", "MPTConc.cfg", shards, timeout=1800, deque=True)
+    consumed = 0
+    for r in vr:
+        consumed += r["events"]
+        res.states += r["distinct"]
+        res.transitions += max(r["generated"] - 1, 0)
+        for b in r["bad"]:
+            res.bad.append((r["shard"], b))
+    res.traces = summ.get("traces", 0)
+    res.events = summ.get("events", 0)
+    res.summary = summ
+    res.samples = summ.get("samples", [])[:4]
+    res.extra["records_consumed_by_tlc"] = consumed
+    res.extra["nbad_total"] = sum(r["nbad"] for r in vr)
+    res.extra["panics"] = summ.get("panics", 0)
+    if summ.get("panics", 0):
+        res.bad.append((shards[0], [0, 1, "run", {"set": ["panic"]}, {"set": []}]))
+    log("validated %d concurrent histories (%d call/return records, search mode): %d rejected; race report: %s" %
+        (res.traces, res.events, res.extra["nbad_total"], "YES" if "race_report" in res.extra else "none"))
+    rc = judge(prop, C16, res, tier, seed, t0)
+    if rc == 0:
+        shutil.rmtree(d, ignore_errors=True)
+    log("%s %s: exit %d (%.1fs)" % (prop, tier, rc, time.time() - t0))
+    return rc
+
+
+C16 = dict(
+    name="mpt-conc", component="conc", custom=run_c16,
+    flags={"C16": {"notlinearizable", "panic", "race"}},
+    distinct=lambda s: s.get("ops", 0),
+    rule="histories = real concurrent runs of 2-4 goroutines x 2-5 operations (insert, delete, lookup, iterate, GetChanges, "
+         "SaveChanges to a second store) on one trie, overlapping and disjoint key sets, seeded Gosched/sleep perturbation, race "
+         "detector on; call/return records ordered by one atomic counter; TLC searches for a linearization (MPTConc.tla) and checks "
+         "final content and canonical shape; extra race-only runs with a node removed from the store so that readers hit missing "
+         "nodes; distinct_nontrivial = number of completed operations judged",
+    summary_keys=["ops", "panics", "distinct_shapes"],
+    ops_of=lambda ev: ev,
+    assumptions=["the Go race detector decides the 'no data race' clause",
+                 "GetChanges/SaveChanges are judged only for absence of panics/errors and races",
+                 "a rejected history stops the validation of the remaining histories in the same shard"],
+)
+
+FAMILIES = {"C01": MPT, "C02": MPT, "C14": MPT, "C06": SC, "C07": SC, "C08": C08, "C03": ROUNDS, "C04": ROUNDS, "C05": ROUNDS, "C17": SYNC, "C16": C16}
 PROPS = dict(FAMILIES)
 
 
